@@ -41,6 +41,7 @@ class _Gens:
         self.by_pow = {}
         self.by_fun = {}
         self.by_ofun = {}
+        self.rewrites = {}  # gid -> (n, replacement Poly): g**n is rewritten eagerly (quotient ring, e.g. s**2 -> 1 - c**2)
         self.ofun_dname = {}  # name -> callable(name, k) -> derivative atom name (or None: default)
         self.custom_deriv = {}  # (gid, xgid) -> Poly
         self.dcache = {}
@@ -278,6 +279,8 @@ class Poly:
                         r[m] = v
                     else:
                         del r[m]
+        if G.rewrites:
+            return _rewrite(Poly(r))
         return Poly(r)
 
     __rmul__ = __mul__
@@ -416,6 +419,48 @@ class Poly:
 ORDER_ORACLE = [None]
 
 
+def set_rewrite(gen, n, replacement):
+    """declare gen**n == replacement (a Poly not involving gen to a power >= n); products are reduced eagerly"""
+    (m,) = gen.t.keys()
+    G.rewrites[m[0][0]] = (n, P(replacement))
+
+
+def clear_rewrites():
+    G.rewrites.clear()
+
+
+def _rewrite(p):
+    rw = G.rewrites
+    for _ in range(64):
+        hit = False
+        keep = {}
+        extra = None
+        for m, c in p.t.items():
+            done = False
+            for i, (g, e) in enumerate(m):
+                if g in rw and isinstance(e, int) and e >= rw[g][0]:
+                    n, repl = rw[g]
+                    k, rem = divmod(e, n)
+                    rest = m[:i] + (((g, rem),) if rem else ()) + m[i + 1:]
+                    saved = G.rewrites
+                    G.rewrites = {}
+                    try:
+                        t = Poly({rest: c})
+                        for _k in range(k):
+                            t = t * repl
+                    finally:
+                        G.rewrites = saved
+                    extra = t if extra is None else extra + t
+                    hit = done = True
+                    break
+            if not done:
+                keep[m] = c
+        if not hit:
+            return p
+        p = Poly(keep) + extra
+    raise Undecided("rewrite system did not terminate")
+
+
 def _coerce(o):
     if isinstance(o, Poly):
         return o
@@ -479,7 +524,9 @@ def _key(p):
 
 def _content_split(p):
     """p = c * q with q primitive-ish (leading coefficient 1 in a canonical order)"""
-    m0 = min(p.t.keys(), key=lambda m: (len(m), m))
+    # leading term = the largest monomial: "x**2 - 3" is normalised with +x**2 leading, so that the usual
+    # positive quantities (limit**2 - 3, 1 + t**2, ...) keep a positive content
+    m0 = max(p.t.keys(), key=lambda m: (sum(abs(e) for _, e in m), len(m), m))
     c = p.t[m0]
     if c == 1:
         return F1, p
@@ -514,6 +561,8 @@ def _mono_content(p):
 
 def pow_atom(B):
     """generator standing for the (non-monomial, content-normalised) polynomial B"""
+    if _exp_gens(B):
+        B = explog_normal(B)
     k = _key(B)
     gid = G.by_pow.get(k)
     if gid is None:
@@ -659,8 +708,29 @@ def fun_atom(fname, arg):
                     r = r + Poly.const(_fr(e)) * _fun_gen("Log", Poly({((g, 1),): F1}))
                 return r
         else:
-            # Log(pow atom ** e) etc. are not simplified; Log(c*q) -> keep
-            pass
+            mono, rest = _mono_content(arg)
+            if mono is not None:
+                return fun_atom("Log", mono) + fun_atom("Log", rest)
+            if _exp_gens(arg):
+                a2 = explog_normal(arg)
+                common = None
+                okc = True
+                for m, c in a2.t.items():
+                    ex = [g for g, e in m if g > 0 and G.info[g]["kind"] == "fun" and G.info[g]["fname"] == "Exp"]
+                    if len(ex) != 1 or dict(m)[ex[0]] != 1:
+                        okc = False
+                        break
+                    t = G.info[ex[0]]["arg"].t
+                    if common is None:
+                        common = dict(t)
+                    else:
+                        common = {k: v for k, v in common.items() if t.get(k) == v}
+                    if not common:
+                        okc = False
+                        break
+                if okc and common:
+                    cp = Poly(common)
+                    return cp + fun_atom("Log", explog_normal(a2 * _fun_gen("Exp", -cp)))
         # Log(Exp(x)) = x
         if len(arg.t) == 1:
             (m, c), = arg.t.items()
@@ -688,6 +758,8 @@ def fun_atom(fname, arg):
 
 
 def _fun_gen(fname, arg):
+    if fname != "Exp" and _exp_gens(arg):
+        arg = explog_normal(arg)
     k = (fname, _key(arg))
     gid = G.by_fun.get(k)
     if gid is None:
@@ -699,7 +771,7 @@ def _fun_gen(fname, arg):
 def ofun(name, args, dvals=None):
     """opaque function atom name(args...) of several ring-valued arguments; d/dx = sum_k D_k name (args) * d args[k]/dx,
     the derivative atom's name being given by the rule registered with set_ofun_rule (default name;k)"""
-    args = tuple(P(a) for a in args)
+    args = tuple(explog_normal(P(a)) if _exp_gens(P(a)) else P(a) for a in args)
     k = (name, tuple(_key(a) for a in args))
     if dvals is not None:
         dvals = tuple(P(d) for d in dvals)
